@@ -11,7 +11,9 @@ from ..src import rename_id, AnalysisError, loc, norm, own_nodes
 
 UTIL = "tdgl.finite_volume.util"
 TECH = ("value numbering of the circumcentre formula (exact identity |U-A|=|U-B|=|U-C|), of the edge-mesh geometry, and "
-        "structural rules on edge extraction and the dual-length branches; the tiling/Delaunay/clipped-Voronoi clauses are declined")
+        "structural rules on edge extraction; the dual-length loop followed statement by statement for an edge with one and with two "
+        "incident triangles; backward slice of everything that flows into the cell areas (signed-area primitives must be oriented or "
+        "under abs); the tiling/Delaunay/clipped-Voronoi clauses are declined")
 
 
 def check(ctx):
